@@ -35,6 +35,11 @@ type Script struct {
 	RawPayload int
 	RawEnd     string
 	OnFault    func()
+	// FRawCut: the genuine raw response of the fault step (for PLAIN optionally padded to CutPad
+	// payload bytes 'p') is cut after RawPayload bytes of the frame (prefix included), then
+	// RawEnd as above.  A cut position at or past the end of the frame is no cut: the
+	// response goes out whole and the journal says so (FrameLen, Cut).
+	CutPad int
 }
 
 const Absent = -1000
@@ -52,6 +57,7 @@ const (
 	FClose    = "close"    // connection closed instead of a response
 	FSilent   = "silent"   // no response at all, connection left open (not part of the enumeration)
 	FRawResp  = "rawresp"  // raw exchange: an arbitrary length prefix and payload, then close or silence
+	FRawCut   = "rawcut"   // raw exchange: the genuine response cut at a byte position, then close or silence
 )
 
 // Journal is what the broker saw on one connection.
@@ -64,6 +70,8 @@ type Journal struct {
 	eof     chan struct{}
 	eofOnce sync.Once
 	notes   []string
+	frame   int  // FRawCut: length of the genuine frame at the fault step
+	cut     bool // FRawCut: the frame was really cut
 }
 
 func newJournal() *Journal { return &Journal{eof: make(chan struct{})} }
@@ -95,6 +103,7 @@ func (j *Journal) Notes() []string {
 	defer j.mu.Unlock()
 	return append([]string(nil), j.notes...)
 }
+func (j *Journal) Frame() (int, bool) { j.mu.Lock(); defer j.mu.Unlock(); return j.frame, j.cut }
 func (j *Journal) Verdict() bool      { j.mu.Lock(); defer j.mu.Unlock(); return j.verdict }
 func (j *Journal) FaultReached() bool { j.mu.Lock(); defer j.mu.Unlock(); return j.reached }
 
@@ -249,6 +258,31 @@ func serve(c net.Conn, sc *Script, j *Journal) {
 				out, done, err = srv.Step(body)
 			} else {
 				err = ErrReject
+			}
+			if kind == FRawCut {
+				if sc.CutPad > 0 && err == nil && len(out) == 0 {
+					out = bytes.Repeat([]byte{'p'}, sc.CutPad)
+				}
+				frame := make([]byte, 4+len(out))
+				binary.BigEndian.PutUint32(frame[:4], uint32(len(out)))
+				copy(frame[4:], out)
+				j.mu.Lock()
+				j.frame = len(frame)
+				j.cut = err == nil && sc.RawPayload < len(frame)
+				j.mu.Unlock()
+				if err == nil && sc.RawPayload < len(frame) {
+					j.setFailed()
+					c.Write(frame[:sc.RawPayload])
+					if sc.RawEnd == "silent" {
+						if sc.OnFault != nil {
+							sc.OnFault()
+						}
+						continue
+					}
+					drain()
+					continue
+				}
+				kind = FNone // not a cut: the genuine reaction
 			}
 			switch {
 			case kind == FJunk:
